@@ -1049,6 +1049,8 @@ def mon_C15(case, lines):
             v.append("C15: %s raised / did not terminate: %s" % (op, items[-1]))
             return v
         if op[0] == "create":
+            if "rewrapped" in items:
+                v.append("C15: asking for the dispatcher of instance %d again wrapped its methods a second time" % op[1])
             wrapped.add(op[1])
         elif op[0] in ("reg", "unreg"):
             if op[1] in wrapped:
